@@ -618,7 +618,7 @@ type FrameDecl struct {
 var ghostDecls = map[string]string{}
 
 var clauseKeywords = map[string]bool{
-	"at": true, "freshresult": true, "set": true, "tag": true, "callsite": true, "preserves": true,
+	"at": true, "freshresult": true, "set": true, "tag": true, "callsite": true, "preserves": true, "postassume": true,
 	"requires": true, "ensures": true, "modifies": true, "loop": true, "decreases": true,
 	"pure": true, "inline": true, "safe": true, "assume": true, "returns": true, "nopanic": true,
 	"purefield": true, "cases": true, "replay": true, "panics_if": true, "opaque": true, "reads": true,
@@ -821,7 +821,7 @@ func LoadContractFile(path string, trusted bool) (*ContractSet, error) {
 				cur = nil
 				c.Text = strings.TrimSpace(c.Text)
 				switch c.Kind {
-				case "requires", "ensures", "invariant", "decreases", "loopdecreases", "assume", "panics_if", "assert":
+				case "requires", "ensures", "invariant", "decreases", "loopdecreases", "assume", "panics_if", "assert", "postassume":
 					e, err := ParseSExpr(c.Text)
 					if err != nil {
 						return fmt.Errorf("%s:%d: %v", path, c.Line, err)
